@@ -8,7 +8,9 @@ wt=$(mktemp -d /tmp/hvben-XXXXXX)
 out=$(mktemp -d /tmp/hvout-XXXXXX)
 git -C /repo worktree add -q --detach "$wt" HEAD || exit 2
 trap 'git -C /repo worktree remove --force "$wt" >/dev/null 2>&1; rm -rf "$out"' EXIT
-git -C "$wt" apply "$b/patch.diff" || { echo "PATCH-DOES-NOT-APPLY $b"; exit 2; }
+if ! git -C "$wt" apply "$b/patch.diff" 2>/dev/null; then
+  if ! (cd "$wt" && patch -p1 --fuzz=3 -s < "$b/patch.diff" >/dev/null 2>&1); then echo "PATCH-DOES-NOT-APPLY $b (the tree changed since the patch was written)"; exit 2; fi
+fi
 bad=0
 for p in "$@"; do
   HV_REPO="$wt" HV_OUT="$out" ${HV_BIN:-/verif/bin/hv} check --property "$p" > "$out/log" 2>&1
